@@ -42,7 +42,13 @@ type c20Shared struct {
 	// move out of the way)
 	msmS []*Scalar
 	msmP []*Point
+	// what the reference model recovers from sigs[i] for ids 0..3 (compressed; nil: no key)
+	recWant [][4][]byte
 }
+
+// a result that contradicts the reference model in the concurrent AND in the sequential pass
+// (so that comparing the two passes says nothing): first message wins
+var c20ModelMismatch atomic.Pointer[string]
 
 func buildShared(seed int64, batch int) *c20Shared {
 	rng := gen.New(seed, batch, "C20", "shared")
@@ -61,6 +67,13 @@ func buildShared(seed int64, batch int) *c20Shared {
 		// not itself perform (and thereby warm up) the operations under test
 		r0, s0, _, _, _ := oracle.RFC6979Sign(d, dig)
 		s.sigs = append(s.sigs, oracle.DERWriteSig(r0, s0))
+		var rw [4][]byte
+		for id := 0; id < 4; id++ {
+			if m := oracle.ECDSARecover(dig, r0, s0, id); m != nil && !m.Inf {
+				rw[id] = oracle.EncodeCompressed(m)
+			}
+		}
+		s.recWant = append(s.recWant, rw)
 		s.ssigs = append(s.ssigs, oracle.BIP340Sign(d, rng.Bytes(32), dig))
 	}
 	// the tags are adjacent sub-slices of ONE blob, each with capacity running into the next
@@ -126,12 +139,28 @@ func c20Call(s *c20Shared, rng *gen.Rng, force int) (name string, obj int, out [
 	case 4:
 		r, sc, _ := secec.ParseASN1Signature(s.sigs[ki])
 		var out []byte
+		// all four candidate keys are recovered first and USED afterwards: a key object belongs
+		// to the caller from the moment it is returned, whatever is recovered next (here or on
+		// another goroutine)
+		var keys [4]*secec.PublicKey
 		for id := byte(0); id < 4; id++ {
 			q, err := secec.RecoverPublicKey(s.digests[ki], r, sc, id)
 			if err == nil {
+				keys[id] = q
 				out = append(out, byte(boolU64(q.Equal(pub))))
 			} else {
 				out = append(out, 2)
+			}
+		}
+		for id, q := range keys {
+			if q == nil {
+				continue
+			}
+			out = append(out, q.Point().CompressedBytes()...)
+			out = append(out, q.CompressedBytes()...)
+			out = append(out, byte(boolU64(q.VerifyRaw(s.digests[ki], r, sc))))
+			if want := s.recWant[ki][id]; want != nil && !bytes.Equal(q.Point().CompressedBytes(), want) {
+				c20ModelMismatch.CompareAndSwap(nil, &[]string{fmt.Sprintf("RecoverPublicKey(signature of key %d, id %d): the returned key object, used after the other candidate keys had been recovered, holds the point %x; the reference model recovers %x", ki, id, q.Point().CompressedBytes(), want)}[0])
 			}
 		}
 		return "RecoverPublicKey", ki, out
@@ -526,6 +555,9 @@ func runC20(r *mon.Run) {
 			}
 		}
 		w.ClassN("c20:concurrent-calls", int64(G*calls))
+		if m := c20ModelMismatch.Load(); m != nil {
+			w.Fail("c20/model-mismatch", *m, "batch", batch)
+		}
 		// how concurrent was it: overlapping pairs on the same shared object
 		byObj := map[int][]c20Rec{}
 		for g := range recs {
